@@ -112,7 +112,11 @@ Inductive bop :=
 | NextTimeout (m : Z)
 | SetNow (t : Z).
 
-Inductive op := Basic (b : bop) | Perform (t : Z).
+(* Loop t1 d m c: one iteration of Thread::event_loop (src/torrent/system/thread.cc): the clock
+   reads t1 on entry of process_events, call_events() takes d (and runs the ops of script c, if
+   any), the clock is read again, timers are dispatched, then the poll timeout is computed from
+   the thread's own next_timeout() = m. *)
+Inductive op := Basic (b : bop) | Perform (t : Z) | Loop (t1 d m : Z) (c : option nat).
 
 Inductive out := OOk | OErr | ONext (r : Z).
 
@@ -217,7 +221,9 @@ Fixpoint run_script (E : env) (s : state) (bs : list bop) : state * list out * b
 Inductive ev :=
 | EFire (e : nat) (d : Z)    (* slot of entry e invoked; d = time of the popped handle *)
 | EOut (o : out)             (* result of one basic op (top level or inside a slot) *)
-| EFuel.                     (* the harness' slot budget was exceeded (slot threw before its body) *)
+| EFuel                      (* the harness' slot budget was exceeded (slot threw before its body) *)
+| ELoop (tnow snow r : Z).   (* end of a loop iteration: Thread::m_cached_time, Scheduler::m_cached_time,
+                               poll timeout handed to Poll::do_poll *)
 
 Inductive outcome := Done | Aborted | OutOfFuel.
 
@@ -246,10 +252,41 @@ Fixpoint perform (E : env) (k : nat) (s : state) (t : Z) : state * list ev * out
       else (mkS hp (ents s) (now s) (next_hid s), [], Done)
   end.
 
+(* Thread::set_cached_time(t): m_cached_time = t; m_scheduler->set_cached_time(t).  The thread's
+   copy is not part of the scheduler state; within an iteration it is the last value set. *)
+Definition set_now (s : state) (t : Z) : state := mkS (heap s) (ents s) t (next_hid s).
+
+Definition call_script (E : env) (c : option nat) : list bop :=
+  match c with Some e => nth e (e_scr E) [] | None => [] end.
+
+(* Thread::process_events():
+     set_cached_time(utils::time_since_epoch());      clock = t1
+     call_events();                                   takes d, runs script c
+     set_cached_time(utils::time_since_epoch());      clock = t1 + d
+     m_scheduler->perform(m_cached_time);
+   followed by the poll-timeout computation of Thread::event_loop():
+     timeout = std::max(next_timeout(), 0us);  timeout = m_scheduler->next_timeout(timeout);
+   An exception (internal_error from a script op, or the harness budget) leaves the iteration. *)
+Definition loop (E : env) (s : state) (t1 d m : Z) (c : option nat) : state * list ev :=
+  let s0 := set_now s t1 in
+  let '(s1, os, err) := run_script E s0 (call_script E c) in
+  if err then (s1, map EOut os)
+  else
+    let s2 := set_now s1 (t1 + d) in
+    let '(s3, pevs, oc) := perform E (e_fuel E) s2 (t1 + d) in
+    match oc with
+    | Done =>
+        let '(s4, o) := next_timeout s3 (Z.max m 0) in
+        (s4, map EOut os ++ pevs ++
+             [ELoop (t1 + d) (now s3) (match o with ONext r => r | _ => 0 end)])
+    | _ => (s3, map EOut os ++ pevs)
+    end.
+
 Definition step (E : env) (s : state) (o : op) : state * list ev :=
   match o with
   | Basic b => let '(s', r) := exec_basic E s b in (s', [EOut r])
   | Perform t => let '(s', evs, _) := perform E (e_fuel E) s t in (s', evs)
+  | Loop t1 d m c => loop E s t1 d m c
   end.
 
 Fixpoint run (E : env) (s : state) (ops : list op) : state * list (list ev) :=
